@@ -78,7 +78,10 @@ theorem C18_lockout (cfg : BruteForceConfig) (hB : 0 < cfg.BanDuration) (es : Li
   exact run_sim cfg hB es 1 _ _ hs (fun _ => RComp_empty cfg (by omega))
 
 /-- **A blacklisted address is always refused** (and an address that is not, or is whitelisted, never):
-for every time line of list changes, queries, clean-ups and delayed removal goroutines. -/
+for every time line of list changes, queries, clean-ups, delayed removal goroutines and *restarts* —
+at any point a new `IPManager` may be created over the same storage (`restart`: node restart, another
+node taking over) and answers from then on; permanent, temporary, CIDR and whitelist entries all
+survive the reload. -/
 theorem C18_blacklist (es : List (Nat × IEv)) (hs : Sorted 0 es) :
     holdsIPM es (ipmRun es IPM.empty) = true := by
   simp only [holdsIPM, beq_iff_eq]
@@ -229,6 +232,26 @@ theorem blind_sweep_witness :
                         (ledgerStep cfg 1 (.fail 1) Ledger.empty).1).1).1).1
     c1.marked = true ∧ isBanned 153 (if c1.marked then none else c1.ban) = false ∧ l1.refuses 153 = true ∧
     isBanned 153 (compStep cfg 152 .sweepDelete c1).1.ban = true := by decide
+
+/-- permanent exact and CIDR entries, a live temporary entry and a whitelist entry survive a reload;
+a removed entry stays removed; an entry whose lazy removal ran before the reload stays gone. -/
+example :
+    ipmRun [(20, .addBlack ⟨167838211, none⟩ 0), (20, .addBlack ⟨3232235776, some 16⟩ 0), (20, .addBlack ⟨167838212, none⟩ 70),
+            (20, .addWhite ⟨3232235777, none⟩), (40, .restart), (40, .isAllowed 167838211), (40, .isAllowed 3232235778),
+            (40, .isAllowed 167838212), (40, .isAllowed 3232235777), (60, .removeBlack ⟨167838211, none⟩), (60, .restart),
+            (60, .isAllowed 167838211), (100, .asyncRemove 167838212), (100, .restart), (100, .isAllowed 167838212)] IPM.empty
+      = [none, none, none, none, none, some false, some false, some false, some true, none, none, some true, none, none, some true] := by
+  decide
+
+/-- **Witness of the regression the `restart` event exists for**: a reload that skips records whose
+`ExpiresAt` is the zero time (the encoding of "permanent") admits a permanently blacklisted address,
+which the ledger refuses. -/
+theorem reload_dropping_permanent_witness :
+    let m : IPM := (ipmStep 20 (.addBlack ⟨167838211, none⟩ 0) IPM.empty).1
+    let l : BLedger := (bledgerStep 20 (.addBlack ⟨167838211, none⟩ 0) BLedger.empty).1
+    let dropZero : IPKey → Option IPRecord := fun k => (m.sblack k).filter (fun r => r.ExpiresAt != 0)
+    isAllowed 40 167838211 { m with blacklist := dropZero } = true ∧ l.allowed 40 167838211 = false ∧
+    isAllowed 40 167838211 (ipmStep 40 .restart m).1 = false := by decide
 
 /-- burst 2, 20 tokens/s, milliseconds: two admitted at once, the third refused, one more 60 ms later. -/
 example :
